@@ -377,7 +377,7 @@ def main_for(which, tier, replay_obj, level_rule, assumptions, configs=None):
         return replay_one(replay_obj["part"], replay_obj["choices"], which, configs)
     FULL_WATCH[0] = (tier == "thorough")
     res = runner.Result(which, "model_checking", tier, level_rule)
-    cap = 240 if tier == "quick" else 3000
+    cap = 240 if tier == "quick" else 900
     known = runner.load_known()
 
     def unlisted(sig):
